@@ -83,8 +83,13 @@ pub fn tag_of<E: Elem>() -> char {
 }
 
 pub fn materialize<E: Elem>(c: usize, r: usize, labels: &[u32], spare: bool) -> TooDee<E> {
+    materialize_spare(c, r, labels, if spare { SPARE } else { 0 })
+}
+
+/// As `materialize`, with exactly `spare` elements of spare capacity.
+pub fn materialize_spare<E: Elem>(c: usize, r: usize, labels: &[u32], spare: usize) -> TooDee<E> {
     let n = c * r;
-    let mut v: Vec<E> = Vec::with_capacity(n + if spare { SPARE } else { 0 });
+    let mut v: Vec<E> = Vec::with_capacity(n + spare);
     for i in 0..n {
         v.push(E::make(if E::ZST { 0 } else { labels[i] }));
     }
@@ -173,6 +178,33 @@ pub fn check_state<E: Elem>(t: &TooDee<E>, m: &Model<u32>, c: &mut Case, what: &
     true
 }
 
+/// "A valid array" after a rejected / faulted call: shape invariant, every cell live and distinct.
+pub fn valid_array<E: Elem>(t: &TooDee<E>, c: &mut Case, what: &str) -> bool {
+    let (nc, nr) = (t.num_cols(), t.num_rows());
+    if nc.checked_mul(nr) != Some(t.data().len()) {
+        c.fail("invalid-after-reject:len", format!("{}: size ({},{}) but data().len() = {}", what, nc, nr, t.data().len()));
+        return false;
+    }
+    if (nc == 0) != (nr == 0) {
+        c.fail("invalid-after-reject:zero-rule", format!("{}: size ({},{})", what, nc, nr));
+        return false;
+    }
+    let mut ids = HashSet::new();
+    for e in t.data() {
+        if !e.sane() {
+            c.fail("invalid-after-reject:dead-cell", format!("{}: a cell holds a dead element {:?}", what, e));
+            return false;
+        }
+        if let Some(id) = e.ident() {
+            if !ids.insert(id) {
+                c.fail("invalid-after-reject:duplicate", format!("{}: element {} reachable twice", what, id));
+                return false;
+            }
+        }
+    }
+    true
+}
+
 fn next_label(m: &Model<u32>) -> u32 {
     m.cells.iter().flat_map(|r| r.iter()).copied().max().map(|x| x + 1).unwrap_or(0)
 }
@@ -182,6 +214,11 @@ pub fn apply<E: Elem>(t: &mut TooDee<E>, m: &mut Model<u32>, act: &Act, c: &mut 
     match act.cap {
         'x' => t.shrink_to_fit(),
         's' => t.reserve(SPARE),
+        '1' | '2' => {
+            // exactly 1 / 2 elements of spare capacity (partial: less than most lines need)
+            t.shrink_to_fit();
+            t.reserve_exact(act.cap as usize - '0' as usize);
+        }
         _ => {}
     }
     let a = &act.a;
@@ -345,6 +382,25 @@ pub fn apply<E: Elem>(t: &mut TooDee<E>, m: &mut Model<u32>, act: &Act, c: &mut 
             }
             if res.is_ok() && expect.is_none() {
                 c.fail("drain:accepts-bad-index", format!("{}: index {} out of range ({}), yet the call returned", act.enc(), i, dim));
+            }
+            res
+        }
+        "irl" | "icl" => {
+            // insertion from an iterator that LIES about its length (claims the expected length but
+            // yields one element fewer (mode 0) or one more (mode 1)): rejected mid-way, or - without
+            // debug assertions and in mode 1 - accepted. The array may lose elements (leak
+            // amplification); its state is read back afterwards.
+            let row = act.op == "irl";
+            let (i, mode) = (a[0], a[1]);
+            let other = if row { mc } else { mr };
+            let claim = if other == 0 { 2 } else { other };
+            let n = if mode == 0 { claim - 1 } else { claim + 1 };
+            let items = mk(n);
+            let it = crate::engine::ledger::FaultIter::lying(items, claim);
+            let res = if row { guarded(|| t.insert_row(i, it)) } else { guarded(|| t.insert_col(i, it)) };
+            let (nc, nr) = (t.num_cols(), t.num_rows());
+            if nc.checked_mul(nr) == Some(t.data().len()) && (nc == 0) == (nr == 0) {
+                *m = Model::from_flat(nc, nr, &t.data().iter().map(|e| e.label()).collect::<Vec<_>>());
             }
             res
         }
@@ -529,6 +585,14 @@ pub fn actions(c: usize, r: usize, copy: bool, leaks: bool) -> Vec<Act> {
     for i in 0..=c + 1 {
         for n in 0..=r + 1 {
             v.push(Act::new("ic", &[i, n]));
+        }
+    }
+    for mode in 0..2 {
+        for i in 0..=r {
+            v.push(Act::new("irl", &[i, mode]));
+        }
+        for i in 0..=c {
+            v.push(Act::new("icl", &[i, mode]));
         }
     }
     for n in 0..=c + 1 {
@@ -782,19 +846,30 @@ pub fn expand<E: Elem>(key: &str, ctx: &mut Ctx, bounds: &Bounds, with_terminals
     // successors already reported for this state (the driver deduplicates across states)
     let mut emitted: HashSet<String> = HashSet::new();
     for act in acts.iter() {
-        for cap in ['x', 's'] {
+        // insertions additionally run with partial spare capacity (1 and 2 elements)
+        let inserting = matches!(act.op.as_str(), "ir" | "ic" | "pr" | "pc");
+        let caps: &[char] = if inserting { &['x', 's', '1', '2'] } else { &['x', 's'] };
+        for &cap in caps {
             let mut act = act.clone();
             act.cap = cap;
             let mut succ: Option<String> = None;
-            ctx.case(
+            let mut ticks: u64 = 0;
+            ctx.pilot_case(
                 || format!("state {} action {}", key, act.enc()),
                 |c| {
                     c.transitions = 1;
-                    let mut t: TooDee<E> = materialize(sc, sr, &labels, cap == 's');
+                    let mut t: TooDee<E> = materialize_spare(sc, sr, &labels, match cap {
+                        's' => SPARE,
+                        '1' => 1,
+                        '2' => 2,
+                        _ => 0,
+                    });
                     let mut m = model_of(sc, sr, &labels);
+                    ledger::arm(u64::MAX);
                     let panicked = apply(&mut t, &mut m, &act, c);
-                    let leaky = act.op == "lr" || act.op == "lc";
-                    c.outcome(if panicked { "rejected" } else if leaky { "leaked" } else { "accepted" });
+                    ticks = ledger::disarm();
+                    let leaky = matches!(act.op.as_str(), "lr" | "lc" | "irl" | "icl");
+                    c.outcome(if panicked { "rejected" } else if leaky { "leaked-or-lied" } else { "accepted" });
                     if !panicked {
                         c.nontrivial((key, &act.op, &act.a, act.cap));
                     }
@@ -815,6 +890,39 @@ pub fn expand<E: Elem>(key: &str, ctx: &mut Ctx, bounds: &Bounds, with_terminals
             if let Some(k) = succ {
                 if k != key && emitted.insert(k.clone()) {
                     ctx.successor(k, format!("{}\t{}", key, act.enc()));
+                }
+            }
+            // C05: the same transition with the k-th call into the element type's own code
+            // (Clone, Drop, Ord::cmp) panicking, for every k: no double drop, no dead cell afterwards
+            if with_terminals && E::TRACKED && !E::ZST && cap == 'x' {
+                for k in 0..ticks {
+                    ctx.case(
+                        || format!("state {} action {} with call #{} into element code panicking", key, act.enc(), k),
+                        |c| {
+                            c.transitions = 1;
+                            let mut t: TooDee<E> = materialize_spare(sc, sr, &labels, 0);
+                            let mut m = model_of(sc, sr, &labels);
+                            ledger::arm(k);
+                            // the harness's own temporaries (source slices, held items) are dropped
+                            // inside apply as well, so the whole call is guarded
+                            let _ = guarded(|| apply(&mut t, &mut m, &act, c));
+                            ledger::disarm();
+                            // only the fault oracle applies to this run: discard model-based complaints
+                            c.fails.clear();
+                            c.outcome("faulted");
+                            c.nontrivial((key, &act.op, &act.a, k));
+                            let what = format!("after {} with a panic in {}", act.enc(), ledger::fault_kind());
+                            if valid_array(&t, c, &what) {
+                                drop(t);
+                            } else {
+                                std::mem::forget(t);
+                            }
+                            let (dd, gd, first) = ledger::problems();
+                            if dd + gd > 0 {
+                                c.fail("drop:double-after-panic", format!("{}: {} double / {} garbage drops: {}", what, dd, gd, first.unwrap_or_default()));
+                            }
+                        },
+                    );
                 }
             }
         }
